@@ -6,6 +6,8 @@ import os
 import numpy as np
 
 from .. import engine, optics as op, refmodel as rm
+from .. import histories
+from ..histories import t_callhist        # worker task of the history harness (mc/histories.py)
 
 PID = 'C17'
 MOD = 'mc.props.c17'
@@ -236,6 +238,8 @@ def chk_history(case, acc, seed):
 DISPATCH = {'resample': chk, 'refuse': chk_refuse, 'history': chk_history}
 
 
+DISPATCH['histop'] = histories.chk_case
+
 def t_shape(arg, acc):
     for seg in ('mono', 'seg2'):
         for s in SCALES:
@@ -264,6 +268,7 @@ def run(tier, seed, acc, procs=None):
     tasks = [('t_shape', {'seed': seed, 'shape': s}) for s in shapes(tier)]
     acc.states += 1
     acc.transitions += len(tasks)
+    tasks += histories.tasks_for(PID, seed)        # pairwise call histories over the operations this property is anchored in
     engine.run_parallel(MOD, tasks, acc, procs)
     return {
         'rule': 'Gaussian-apodised amplitude + low-order OPD on even, odd and non-square arrays x monolithic / two-segment mask x 9 scale '
@@ -278,5 +283,8 @@ def run(tier, seed, acc, procs=None):
 
 
 def replay(case, acc):
+    if case.get('kind') == 'histop':
+        import os as _os
+        return histories.chk_case(case, acc, int(_os.environ.get('VERIF_SEED', '0') or 0))
     seed = int(os.environ.get('VERIF_SEED', '0') or 0)
     DISPATCH[case['kind']](case, acc, seed)
